@@ -235,8 +235,10 @@ def parse_oracle(text):
   except SyntaxError:
     return None, []
   comments = []
+  parse_oracle.tokens = []          # all tokens of the last call: (type == COMMENT, string)
   try:
     for tok in tokenize.generate_tokens(io.StringIO(text).readline):
+      parse_oracle.tokens.append((tok[0] == tokenize.COMMENT, tok[1]))
       if tok[0] == tokenize.COMMENT:
         comments.append(tok[1])
   except (tokenize.TokenError, SyntaxError, ValueError):
